@@ -12,6 +12,7 @@ from vlib import hexf, close
 HERE = os.path.dirname(os.path.abspath(__file__))
 sys.path.insert(0, HERE)
 import gen as G
+import tie2
 
 TOL = 1.5e-8          # Tolerance<>::from_default().rel (double)
 MARGIN = 1e-6         # probes keep this distance from every surface (>> 10 * tol * scale)
@@ -742,6 +743,9 @@ def run(ctx):
     incs = ["-I%s/src/orange/%s" % (vlib.REPO, d) for d in ("orangeinp", "orangeinp/detail", "surf", "surf/detail", "")]
     exe = ctx.compile_harness([os.path.join(HERE, "harness", "build_probe.cc")] + extra_src, "build_probe",
                               libs=["orange", "geocel", "corecel"], extra=incs if extra_src else ())
+    # part 2 of the tie (bounding zones, transformed boxes, soft de-duplication: tie2.py): the library side runs now,
+    # the model side is evaluated in the background and judged at the end
+    t2 = tie2.start(ctx, extra_src, incs)
 
     # ---------------- generate -------------------------------------------
     inp = ["tol %s" % float(TOL).hex()]
@@ -1081,6 +1085,10 @@ def run(ctx):
         ctx.count("probe:" + k, v)
     if trees:
         ctx.sample({"tree": trees[0]["text"][:1500]})
+    try:
+        tie2.finish(ctx, t2)
+    except Exception as ex:            # noqa: never exit status 2
+        ctx.violation("tie-broken", "part 2 of the tie (tie2.py) failed: %s" % ex, {"error": str(ex)[-2000:]}, no_input=True)
     if not proofs_ok:
         ctx.violation("proof-broken", "Properties_C09.v no longer checks", ctx.broken_proof, no_input=True)
     ctx.coverage["rule"] = ("cases = (primitive, parameters) for the surface differential and (object tree in nested units, probe point) "
